@@ -86,14 +86,17 @@ func Path(n int) *DenseGraph {
 	}
 
 	degrees := make([]int, n)
-	if n > 0 {
+	m := 0
+	if n > 1 {
+		//The paths on 0 and 1 vertices have no edges.
+		m = n - 1
 		degrees[0] = 1
 		degrees[n-1] = 1
 		for i := 1; i < n-1; i++ {
 			degrees[i] = 2
 		}
 	}
-	return &DenseGraph{NumberOfVertices: n, NumberOfEdges: n - 1, DegreeSequence: degrees, Edges: edges}
+	return &DenseGraph{NumberOfVertices: n, NumberOfEdges: m, DegreeSequence: degrees, Edges: edges}
 }
 
 //Cycle returns a copy of the cycle on n vertices.
@@ -119,14 +122,16 @@ func Star(n int) *DenseGraph {
 	}
 
 	degrees := make([]int, n)
+	m := 0
 	if n > 0 {
+		m = n - 1
 		degrees[0] = n - 1
 		for i := 1; i < n; i++ {
 			degrees[i] = 1
 		}
 	}
 
-	return &DenseGraph{NumberOfVertices: n, NumberOfEdges: n - 1, DegreeSequence: degrees, Edges: edges}
+	return &DenseGraph{NumberOfVertices: n, NumberOfEdges: m, DegreeSequence: degrees, Edges: edges}
 }
 
 //RookGraph returns the n x m Rook graph i.e. the graph representing the moves of a rook on an n x m chessboard.
